@@ -528,7 +528,9 @@ def summarize(all_cases, counters, extras):
             for k, v in ev.items():
                 if isinstance(v, (int, float)):
                     tot[k] = max(tot.get(k, 0), v) if k.startswith("max_") else tot.get(k, 0) + v
+    sample = next(({"case": c["idx"], "observed": c["obs"]} for c in all_cases if isinstance((c.get("obs") or {}).get("events"), dict)), None)
     return {
+        "insitu_sample": sample,
         "insitu_totals": tot,
         "events_not_judged": {k: v for k, v in counters.items() if "not_judged" in k},
         "hook_calls": {k[5:]: v for k, v in counters.items() if k.startswith("hook:")},
